@@ -21,10 +21,11 @@
  *   reset
  *   load <flags> <filterpreset 0|1> synthetic <description...> | xml <path> | native
  *   prep <op> ...            modifications of the original before sharing (see do_prep)
- *   snapshot                 full observation of the original
+ *   reload <flags> <filterpreset>   the original is exported to an XML buffer and loaded again from it with these topology flags
+ *   snapshot                 full observation of the original (+ "cw": internal cache rewrites that this consultation triggered)
  *   get_length <flags>
- *   write <obase 0|1> <opages> <orem> <slot> <ashift pages> <arem> <dlen pages> <lrem> <punch> <flags> <tail pages>
- *            offset = (obase ? end of the last image : 0) + opages*page + orem;  length = L + dlen*page + lrem
+ *   write <obase 0|1|2|3> <opages> <orem> <slot> <ashift pages> <arem> <dlen pages> <lrem> <punch> <flags> <tail pages>
+ *            offset = (obase 0: 0, 1: end of the last image, 2: 2 GiB, 3: 4 GiB) + opages*page + orem;  length = L + dlen*page + lrem
  *   patch <img> <field>      version | hdrlen | addr | len | abi   (xor of one bit: applying it twice restores)
  *   adopter                  fork the adopter process; the following lines run there
  *     adopt <h> <img|-1> <doff pages> <dorem> <slot> <ashift> <arem> <dlen> <lrem> <punch 0|1|2> <flags>
@@ -50,8 +51,10 @@
 #define SLOT_PAGES (RES_PAGES / 4)
 #define MAXIMG 4
 #define MAXH 2
+/* far file offsets (the file is sparse: only the segment and its surroundings are ever written) */
+#define FAR2 (1ULL << 31)
+#define FAR3 (1ULL << 32)
 
-static size_t PAGE;
 static char *res_base;
 static hwloc_topology_t orig;
 static size_t Llast; static int Lvalid;
@@ -61,6 +64,15 @@ static uint64_t file_end;
 static struct { hwloc_topology_t t; char *addr; size_t len; } H[MAXH];
 static int stopped;           /* the rest of the behaviour is skipped (failed load, ...) */
 
+/* ---------- hook events of the library (built with -DHWLOC_VERIF): the internal caches of distances / memory attribute targets are
+ * about to be rewritten.  Counted; a snapshot says how many happened while it only consulted the original ---------- */
+static unsigned long cache_writes;
+void hwloc_verif_event(const char *name, unsigned long a, unsigned long b);
+void hwloc_verif_event(const char *name, unsigned long a, unsigned long b) {
+  (void)a; (void)b;
+  if (!strcmp(name, "dist_refresh_write") || !strcmp(name, "memattr_refresh_write")) cache_writes++;
+}
+
 /* ---------- digests (FNV-1a 64) ---------- */
 #define FNV0 1469598103934665603ULL
 static uint64_t fnv(const void *p, size_t n, uint64_t h) { const unsigned char *c = p; size_t i; for (i = 0; i < n; i++) { h ^= c[i]; h *= 1099511628211ULL; } return h; }
@@ -68,22 +80,47 @@ static void out_dig(uint64_t h) { out("[%u,%u,%u,%u]", (unsigned)(h & 0xffff), (
 static void out_dec(uint64_t v) { out("\"%llu\"", (unsigned long long)v); }
 static void out_xd(int len, uint64_t h) { out("[%d,%u,%u,%u,%u]", len, (unsigned)(h & 0xffff), (unsigned)((h >> 16) & 0xffff), (unsigned)((h >> 32) & 0xffff), (unsigned)((h >> 48) & 0xffff)); }
 static void out_int(uint64_t v) { out("%lu", (unsigned long)(v & 0x7fffffff)); }
+static size_t PAGE;
+/* a file offset as whole pages + remainder (offsets of 2 GiB and more do not fit the 32-bit integers of TLC) */
+static void out_off(uint64_t off) { out(",\"off_pg\":%lu,\"offrem\":%lu", (unsigned long)(off / PAGE), (unsigned long)(off % PAGE)); }
 
-/* digest of the bytes [from, to) of the file; bytes past the end of the file are not there and do not count */
+static uint64_t file_size(void) { struct stat st; if (fstat(fd, &st) < 0) return 0; return (uint64_t)st.st_size; }
+/* the digest after n more zero bytes (h ^= 0 does nothing: n multiplications by the prime, by squaring) */
+static uint64_t fnv_zeros(uint64_t h, uint64_t n) { uint64_t b = 1099511628211ULL, r = 1; while (n) { if (n & 1) r *= b; b *= b; n >>= 1; } return h * r; }
+#ifndef SEEK_DATA
+#define SEEK_DATA 3
+#define SEEK_HOLE 4
+#endif
+/* digest of the bytes [from, to) of the file; bytes past the end of the file are not there and do not count.
+ * The file may be sparse (images at offsets of 2 GiB and more): holes read as zeros, so their part of the digest is
+ * computed without reading them; the value is the one the plain byte-by-byte digest gives */
 static uint64_t file_digest(uint64_t from, uint64_t to) {
-  static char buf[1 << 16]; uint64_t h = FNV0, pos = from;
+  static char buf[1 << 16]; uint64_t h = FNV0, pos = from, size = file_size();
+  if (to > size) to = size;
   while (pos < to) {
-    size_t want = to - pos > sizeof buf ? sizeof buf : (size_t)(to - pos);
-    ssize_t r = pread(fd, buf, want, (off_t)pos);
-    if (r <= 0) break;
-    h = fnv(buf, (size_t)r, h); pos += (uint64_t)r;
+    uint64_t dend = to; off_t d = lseek(fd, (off_t)pos, SEEK_DATA), e;
+    if (d == (off_t)-1 && errno == ENXIO) { h = fnv_zeros(h, to - pos); break; }       /* nothing but a hole up to the end */
+    if (d != (off_t)-1) {
+      if ((uint64_t)d >= to) { h = fnv_zeros(h, to - pos); break; }
+      h = fnv_zeros(h, (uint64_t)d - pos); pos = (uint64_t)d;
+      e = lseek(fd, (off_t)pos, SEEK_HOLE);
+      if (e != (off_t)-1 && (uint64_t)e > pos && (uint64_t)e < to) dend = (uint64_t)e;
+    }                                                                                     /* (no SEEK_DATA here: read everything) */
+    while (pos < dend) {
+      size_t want = dend - pos > sizeof buf ? sizeof buf : (size_t)(dend - pos);
+      ssize_t r = pread(fd, buf, want, (off_t)pos);
+      if (r <= 0) return h;
+      h = fnv(buf, (size_t)r, h); pos += (uint64_t)r;
+    }
   }
   return h;
 }
-static uint64_t file_size(void) { struct stat st; if (fstat(fd, &st) < 0) return 0; return (uint64_t)st.st_size; }
 static unsigned char pattern(uint64_t pos) { return (unsigned char)(0x41 + (pos * 7 + (pos >> 9)) % 53); }
+#define FAR_GAP (1UL << 20)
 static void file_extend(uint64_t size) {
   uint64_t pos = file_size(); static unsigned char buf[4096];
+  /* a far offset is reached through a hole; the last 64 KiB before it (and what follows) carry the pattern */
+  if (size > pos + FAR_GAP) { uint64_t upto = (size - (1UL << 16)) & ~(uint64_t)4095; if (!ftruncate(fd, (off_t)upto)) pos = upto; }
   while (pos < size) {
     size_t n = size - pos > sizeof buf ? sizeof buf : (size_t)(size - pos), i;
     for (i = 0; i < n; i++) buf[i] = pattern(pos + i);
@@ -303,6 +340,25 @@ static void do_load(char *p) {
   out(",\"conf\":[%d,%d,%d],\"ret\":%d,\"errno\":\"%s\"}", r1, r2, r3, ret, errname(err)); out_end();
   if (ret) { hwloc_topology_destroy(orig); orig = NULL; stopped = 1; }
 }
+/* the original goes through XML: exported to a buffer and loaded again from it with the given topology flags
+ * (what the XML carries - distances, memory attributes, CPU kinds, support - is imported or ignored according to them) */
+static void do_reload(char *p) {
+  unsigned long fl = (unsigned long)hwv_tokl(&p); int preset = (int)hwv_tokl(&p); char *buf = NULL; int len = 0, r0, r1 = 0, r2 = 0, r3 = 0, ret, err;
+  hwloc_topology_t t2 = NULL;
+  if (!orig) return;
+  r0 = hwloc_topology_export_xmlbuffer(orig, &buf, &len, 0);
+  hwloc_topology_init(&t2);
+  if (!r0) r1 = hwloc_topology_set_xmlbuffer(t2, buf, len);
+  r2 = hwloc_topology_set_flags(t2, fl);
+  if (preset == 1) r3 = hwloc_topology_set_all_types_filter(t2, HWLOC_TYPE_FILTER_KEEP_ALL);
+  errno = 0; ret = (r0 || r1 || r2 || r3) ? -1 : hwloc_topology_load(t2); err = errno;
+  out("{\"e\":\"load\",\"flags\":%lu,\"preset\":%d,\"kind\":\"reload\",\"src\":\"\",\"xmllen\":%d", fl, preset, len);
+  out(",\"conf\":[%d,%d,%d],\"ret\":%d,\"errno\":\"%s\"}", r1, r2, r3, ret, errname(err)); out_end();
+  if (buf) hwloc_free_xmlbuffer(orig, buf);
+  hwloc_topology_destroy(orig); orig = NULL;
+  if (ret) { hwloc_topology_destroy(t2); stopped = 1; } else orig = t2;
+  Lvalid = 0;
+}
 static hwloc_obj_t nth(hwloc_topology_t t, int type, unsigned k) { return hwloc_get_obj_by_type(t, (hwloc_obj_type_t)type, k); }
 /* modifications of the original before sharing; judged by other properties, logged here with their result only */
 static void do_prep(char *p) {
@@ -377,7 +433,8 @@ static void do_prep(char *p) {
 }
 static void do_snapshot(void) {
   if (!orig) return;
-  out("{\"e\":\"snapshot\""); out_obs("obs", orig, 1); out("}"); out_end();
+  unsigned long c0 = cache_writes;
+  out("{\"e\":\"snapshot\""); out_obs("obs", orig, 1); out(",\"cw\":%lu}", cache_writes - c0); out_end();
 }
 static void do_get_length(char *p) {
   unsigned long fl = (unsigned long)hwv_tokl(&p); size_t len = 0; int ret, err;
@@ -430,8 +487,8 @@ static int writer(char **lines, size_t n) {
   tend = size0 < size1 ? size0 : size1;
   tail0 = fnv(saved, tend > W.off + W.len && (size_t)(tend - (W.off + W.len)) <= nsaved ? (size_t)(tend - (W.off + W.len)) : 0, FNV0);
   tail1 = file_digest(W.off + W.len, tend);
-  out("{\"e\":\"write\",\"off\":"); out_int(W.off); out(",\"offrem\":%lu,\"slot\":%d,\"addr_pg\":%ld,\"addr_rem\":%lu,\"len\":%lu,\"dlen\":%ld,\"flags\":%lu,\"punch\":%d,\"avail\":%d",
-      (unsigned long)(W.off % PAGE), W.slot, (long)((page_lo(addr) - res_base) / (long)PAGE), (unsigned long)W.arem, (unsigned long)W.len, (long)W.len - (long)Llast, W.flags, W.punchmode, avail);
+  out("{\"e\":\"write\""); out_off(W.off); out(",\"slot\":%d,\"addr_pg\":%ld,\"addr_rem\":%lu,\"len\":%lu,\"dlen\":%ld,\"flags\":%lu,\"punch\":%d,\"avail\":%d",
+      W.slot, (long)((page_lo(addr) - res_base) / (long)PAGE), (unsigned long)W.arem, (unsigned long)W.len, (long)W.len - (long)Llast, W.flags, W.punchmode, avail);
   out(",\"ret\":%d,\"errno\":\"%s\",\"size0\":", ret, ret ? errname(err) : "0"); out_int(size0); out(",\"size1\":"); out_int(size1);
   out(",\"pre0\":"); out_dig(pre0); out(",\"pre1\":"); out_dig(pre1); out(",\"tail0\":"); out_dig(tail0); out(",\"tail1\":"); out_dig(tail1);
   out(",\"all0\":"); out_dig(all0); out(",\"all1\":"); out_dig(all1);
@@ -446,11 +503,12 @@ static void do_write(char *p) {
   if (!orig || !Lvalid) return;
   W.slot = (int)hwv_tokl(&p); W.shift = hwv_tokl(&p); W.arem = (size_t)hwv_tokl(&p); dlen = hwv_tokl(&p); lrem = hwv_tokl(&p);
   W.punchmode = (int)hwv_tokl(&p); W.flags = (unsigned long)hwv_tokl(&p); W.tail = hwv_tokl(&p);
-  W.off = (obase ? file_end : 0) + (uint64_t)opages * PAGE + (uint64_t)orem;
+  W.off = (obase == 1 ? file_end : obase == 2 ? FAR2 : obase == 3 ? FAR3 : 0) + (uint64_t)opages * PAGE + (uint64_t)orem;
   W.len = (size_t)((long)Llast + dlen * (long)PAGE + lrem);
   if (W.slot < 0 || W.slot > 3 || nimg >= MAXIMG) return;
   /* fill up to the offset (and beyond the segment when asked) so that stray writes in the file are visible */
-  file_extend(W.off + (W.tail > 0 ? W.len + (uint64_t)W.tail * PAGE : 0));
+  file_extend(W.off);
+  if (W.tail > 0) file_extend(W.off + W.len + (uint64_t)W.tail * PAGE);
   rc = in_child(writer, NULL, 0);
   if (rc == 0) {
     img[nimg].off = W.off; img[nimg].slot = W.slot; img[nimg].addr_pg = W.shift; img[nimg].addr_rem = W.arem; img[nimg].len = W.len; nimg++;
@@ -465,7 +523,7 @@ static void do_patch(char *p) {
   if (!strcmp(field, "version")) pos += 0; else if (!strcmp(field, "hdrlen")) pos += 4; else if (!strcmp(field, "addr")) pos += 8 + 5;
   else if (!strcmp(field, "len")) pos += 16 + 5; else if (!strcmp(field, "abi")) pos += 24 + 1; else return;
   if (pread(fd, &b, 1, (off_t)pos) == 1) { b ^= 0x10; ok = pwrite(fd, &b, 1, (off_t)pos) == 1; }
-  out("{\"e\":\"patch\",\"img\":%d,\"off\":", k); out_int(img[k].off); out(",\"field\":\"%s\",\"ok\":%d}", field, ok); out_end();
+  out("{\"e\":\"patch\",\"img\":%d", k); out_off(img[k].off); out(",\"field\":\"%s\",\"ok\":%d}", field, ok); out_end();
 }
 
 /* ---------- adopter ---------- */
@@ -485,7 +543,7 @@ static void do_adopt(char *p) {
   if (pm) punch(addr, len, pm);
   avail = range_free(addr, len);
   errno = 0; ret = hwloc_shmem_topology_adopt(&t, fd, off, addr, len, fl); err = errno;
-  out("{\"e\":\"adopt\",\"h\":%d,\"img\":%d,\"off\":", h, k); out_int(off);
+  out("{\"e\":\"adopt\",\"h\":%d,\"img\":%d", h, k); out_off(off);
   out(",\"slot\":%d,\"addr_pg\":%ld,\"addr_rem\":%ld,\"len\":%lu,\"flags\":%lu,\"punch\":%d,\"avail\":%d,\"free_after\":%d",
       slot, (long)((page_lo(addr) - res_base) / (long)PAGE), arem, (unsigned long)len, fl, pm, avail, range_free(addr, len));
   if (!ret) { H[h].t = t; H[h].addr = page_lo(addr); H[h].len = page_span(addr, len); out_obs("obs", t, 1); }
@@ -583,6 +641,31 @@ static void do_call(char *p) {
       hwloc_topology_destroy(d2);
     }
   }
+  else if (!strcmp(op, "reshare")) {
+    /* the adopted topology is shared again: measured, written into a second file for another address range (slot 3, which no
+     * behaviour uses otherwise), adopted from there, observed, destroyed */
+    size_t l = 0; int r1 = -2, r2 = -2;
+    ret = hwloc_shmem_topology_get_length(t, &l, 0); err = errno;
+    if (!ret) {
+      char path[4096]; int fd2; char *a = slot_addr(3, 0, 0); hwloc_topology_t t2 = NULL;
+      snprintf(path, sizeof path, "%s/hwv_shmem2.XXXXXX", scratchdir);
+      fd2 = mkstemp(path);
+      if (fd2 >= 0) {
+        unlink(path);
+        punch(a, l, 1);
+        errno = 0; r1 = hwloc_shmem_topology_write(t, fd2, 0, a, l, 0); err = errno;
+        if (!r1) {
+          errno = 0; r2 = hwloc_shmem_topology_adopt(&t2, fd2, 0, a, l, 0); err = errno;
+          if (!r2) { out_obs("re", t2, 0); hwloc_topology_destroy(t2); }
+        }
+        out(",\"refree\":%d", range_free(a, l));
+        punch(a, l, 2);
+        close(fd2);
+      }
+      ret = r1 ? r1 : r2;
+    }
+    out(",\"relen\":%lu,\"rewrite\":%d,\"readopt\":%d", (unsigned long)(l & 0x7fffffff), r1, r2);
+  }
   else if (!strcmp(op, "get_length")) { size_t l = 0; ret = hwloc_shmem_topology_get_length(t, &l, (unsigned long)x); err = errno; out(",\"len\":%lu", ret ? 0UL : (unsigned long)(l & 0x7fffffff)); }
   else if (!strcmp(op, "check")) { hwloc_topology_check(t); ret = 0; }
   else if (!strcmp(op, "set_userdata")) { hwloc_topology_set_userdata(t, (void *)(uintptr_t)x); ret = 0; out(",\"got\":%ld", (long)(uintptr_t)hwloc_topology_get_userdata(t)); }
@@ -617,6 +700,7 @@ static void handler(char **lines, size_t n, int beh) {
     if (stopped) continue;
     if (!strcmp(cmd, "load")) { if (!orig) do_load(p); }
     else if (!strcmp(cmd, "prep")) do_prep(p);
+    else if (!strcmp(cmd, "reload")) do_reload(p);
     else if (!strcmp(cmd, "snapshot")) do_snapshot();
     else if (!strcmp(cmd, "get_length")) do_get_length(p);
     else if (!strcmp(cmd, "write")) do_write(p);
